@@ -80,6 +80,13 @@ pub fn gen(args: &Args) {
         };
         w.emit(call_event(lat, lon, r.range(-420, 8848)));
     }
+    // exactly on (the 1e-4 degree grid point nearest to) the Kaaba's meridian and antimeridian, all latitudes
+    let mut lat = -880_000i64;
+    while lat <= 880_000 {
+        w.emit(call_event(lat, 398_233, 0));
+        w.emit(call_event(lat, -1_401_767, 0));
+        lat += if thorough { 10_000 } else { 40_000 };
+    }
     // symmetry pairs at micro-degree resolution
     let m = if thorough { 40000 } else { 4000 };
     for i in 0..m {
@@ -99,7 +106,8 @@ pub fn gen(args: &Args) {
             }
             2 => {
                 let lon = if r.chance(1, 2) { KLON } else { KLON - 180. };
-                w.emit(json!({"ev": "qpair", "kind": "meridian", "lat": lat, "lon": lon, "qa": qu(lat, lon, 0.), "qb": 0}));
+                w.emit(json!({"ev": "qpair", "kind": "meridian", "lat": lat, "lon": lon, "lat5": (lat * 1e5).round() as i64,
+                    "anti": lon < 0., "qa": qu(lat, lon, 0.), "qb": 0}));
             }
             _ => {
                 let east = r.chance(1, 2);
